@@ -12,3 +12,4 @@ for p in "$@"; do
 done
 cp .cache/evidence_keep/*.json evidence/
 git -C /repo checkout -- .
+(cd /verif/harness && CARGO_NET_OFFLINE=true cargo build --offline >/dev/null 2>&1)
